@@ -320,13 +320,38 @@ FS_bobwc ==
          pf == P_bob(par, st, x, 5, 3, rn, e)
      IN  Xs # x => ~E_bobwc(par, st, pf, e).eqG /\ Out_bobwc(par, st, pf, e) = "rej"
 
+(* one iteration of an honest proof replaced by response + 1: that iteration's equation fails, whatever the challenge *)
+FS_iter ==
+  /\ \A x \in {2, 7, 14}, c \in [1..3 -> {0, 1}], i \in 1..3 :
+       LET st == [h1 |-> 4, h2 |-> Exp(4, x, 77), N |-> 77]
+           pf == P_dln([K |-> 3], st, x, 15, <<3, 5, 9>>, c)
+           bad == [pf EXCEPT !.t[i] = @ + 1]
+       IN  All(E_dln([K |-> 3], st, pf, c)) /\ ~All(E_dln([K |-> 3], st, bad, c))
+  /\ \A xs \in [1..2 -> {2, 3, 8, 33}], i \in 1..2 :
+       LET st == [N |-> 35]
+           pf == P_pai([K |-> 2, bound |-> 4], st, 24, xs)
+           bad == [pf EXCEPT !.y[i] = (@ + 1) % 35]
+       IN  All(E_pai([K |-> 2, bound |-> 4], st, pf, xs)) /\ ~All(E_pai([K |-> 2, bound |-> 4], st, bad, xs))
+  /\ \A Y \in [1..2 -> {1, 2, 4, 5, 7, 8, 10}], i \in 1..2 :
+       LET st == [N |-> 33]
+           pf == P_mod([K |-> 2], st, 3, 11, 5, Y)
+           badZ == [pf EXCEPT !.Z[i] = (@ + 1) % 33]
+           badX == [pf EXCEPT !.X[i] = (@ + 1) % 33]
+       IN  /\ All(E_mod([K |-> 2], st, pf, Y))
+           /\ ~E_mod([K |-> 2], st, badZ, Y).eqZ /\ E_mod([K |-> 2], st, badZ, Y).eqX
+           /\ (~E_mod([K |-> 2], st, badX, Y).eqX \/ Exp(badX.X[i], 4, 33) = Exp(pf.X[i], 4, 33))   \* (X+1)^4 = X^4 happens for toy N
+           /\ E_mod([K |-> 2], st, badX, Y).eqZ
+
 FalseStatements ==
   /\ FS_sch(5) /\ FS_sch(7) /\ FS_schv(5) /\ FS_dln /\ FS_pai /\ FS_pai_small /\ FS_mod /\ FS_fac
-  /\ FS_alice /\ FS_bob /\ FS_bobwc
+  /\ FS_alice /\ FS_bob /\ FS_bobwc /\ FS_iter
 
 -----------------------------------------------------------------------------
 (* Part 3: the C11 catalogue.  family = the false statement / the violated bound; trips = the guard or equation *)
-(* that must stop it; prover: "lib" = the library's own prover run on the bad witness, "built" = a transcript   *)
+(* that must stop it (iteration_unchecked: an honest proof of a true statement in which the response of ONE of   *)
+(* the 128 / 13 / 80 iterations - first, middle, last - is replaced by response + 1: every equation holds but   *)
+(* that one; a verifier that skips an iteration accepts it);                                                    *)
+(* prover: "lib" = the library's own prover run on the bad witness, "built" = a transcript                      *)
 (* the harness builds with the prover's algorithm and out-of-range coins so that every equation holds and only  *)
 (* that bound fails; sizes = how far outside; demand: "reject" (the property demands it) or "record".           *)
 Families ==
@@ -334,6 +359,10 @@ Families ==
     [sys |-> "schv",  family |-> "wrong_dlog",          trips |-> "eq",              prover |-> "lib",   sizes |-> <<"plus1", "rand", "wrongR">>],
     [sys |-> "dln",   family |-> "wrong_dlog",          trips |-> "eq",              prover |-> "lib",   sizes |-> <<"plus1", "rand">>],
     [sys |-> "dln",   family |-> "h2_outside_group",    trips |-> "eq",              prover |-> "lib",   sizes |-> <<"nonresidue", "minus_h2", "random_unit">>],
+    [sys |-> "dln",   family |-> "iteration_unchecked", trips |-> "eq",              prover |-> "built", sizes |-> <<"first", "middle", "last">>],
+    [sys |-> "pai",   family |-> "iteration_unchecked", trips |-> "eq",              prover |-> "built", sizes |-> <<"first", "middle", "last">>],
+    [sys |-> "mod",   family |-> "iteration_unchecked_X", trips |-> "eqX",           prover |-> "built", sizes |-> <<"first", "middle", "last">>],
+    [sys |-> "mod",   family |-> "iteration_unchecked_Z", trips |-> "eqZ",           prover |-> "built", sizes |-> <<"first", "middle", "last">>],
     [sys |-> "pai",   family |-> "shares_factor_with_totient", trips |-> "eq",       prover |-> "built", sizes |-> <<"p_divides_q_minus_1">>],
     [sys |-> "pai",   family |-> "small_prime_factor",  trips |-> "no_small_factor", prover |-> "lib",   sizes |-> <<"3", "5", "997">>],
     [sys |-> "mod",   family |-> "prime",               trips |-> "N_composite",     prover |-> "built", sizes |-> <<"3mod4">>],
